@@ -198,7 +198,7 @@ func (ex *Exec) nextOp(it *Iter, in *ssa.Next, fr *frame) Value {
 		return Tuple{false, zk, zv}
 	}
 	idx := 0
-	if len(cands) > 1 && !ex.mapOrderInsertion && !ex.orderIrrelevant(in) && !ex.orderLemma(fr) {
+	if len(cands) > 1 && !ex.mapOrderInsertion && !ex.orderIrrelevant(in) && !ex.orderLemma(fr) && (ex.orderOnly == nil || ex.orderOnly[fr.fn.String()]) {
 		// pristine-entry symmetry: untouched entries of a lazily created map are interchangeable;
 		// keep only the first representative of that class among the candidates.
 		var reps []*MapEntry
